@@ -365,6 +365,15 @@ impl Workload {
                     8 if c > 0 => (-(i64::from(chans[0][t]))).clamp(lo, hi),
                     9 if c > 0 => i64::from(chans[0][t]),
                     10 => r.range(lo / 16, hi / 16),
+                    // content that changes character over time: noise for the first 80 % then a tone, and the reverse
+                    12 | 13 => {
+                        let first = t * 5 < n * 4;
+                        if first == (kind == 12) {
+                            r.range(lo / 16, hi / 16)
+                        } else {
+                            (amp_hi * 0.4 * (std::f64::consts::TAU * t as f64 / period as f64).sin()) as i64
+                        }
+                    }
                     _ => {
                         (amp_hi * 0.5 * (std::f64::consts::TAU * t as f64 / period as f64).sin()) as i64
                             + r.range(-small, small)
@@ -445,7 +454,7 @@ pub fn gen(purpose: Purpose, tier: Tier, seed: u64, index: u64) -> Workload {
         6 => block - 1,
         _ => r.below(block),
     };
-    let sig_kinds: Vec<u8> = (0..channels).map(|_| r.below(12) as u8).collect();
+    let sig_kinds: Vec<u8> = (0..channels).map(|_| r.below(14) as u8).collect();
     let cfg = CfgSpec::random(&mut r);
     let (workers, env_workers) = match r.below(100) {
         0..=74 => (Some(1 + r.below(if tier == Tier::Thorough { 8 } else { 4 })), None),
@@ -567,6 +576,23 @@ pub fn gen(purpose: Purpose, tier: Tier, seed: u64, index: u64) -> Workload {
         }
         _ => {}
     }
+    // long, heterogeneous, fully analysed: ~100 small mono blocks whose content changes character late in
+    // the stream, with every predictor enabled (per-thread adaptive state needs many sub-frames of one kind
+    // before the next kind arrives)
+    if r.chance(0.03) {
+        w.block = *r.pick(&[64usize, 96, 128]);
+        w.channels = 1;
+        w.sig_kinds = vec![12 + r.below(2) as u8];
+        w.bits = 16;
+        w.nfull = 90 + r.below(50);
+        w.residue = *r.pick(&[0usize, 17]);
+        w.cfg = CfgSpec::default_spec();
+        w.hashq_cap = 16;
+        if w.workers.is_none() {
+            w.workers = Some(2 + r.below(3));
+            w.env_workers = None;
+        }
+    }
     // the configuration's own block_size field is independent of the argument the entry point is called with
     if r.chance(0.1) {
         w.cfg_block = Some(*r.pick(&[32usize, 192, 576, 1152, 4096, 4608, 32767]));
@@ -655,9 +681,16 @@ pub fn gen(purpose: Purpose, tier: Tier, seed: u64, index: u64) -> Workload {
             let nreads = w.plan_reads().len();
             let k = r.below(nreads);
             let f = match r.below(7) {
-                6 => Fault::BadBlockSize {
-                    block: *r.pick(&[0u64, 1, 31, 32768, 40000, 65535, 65536, (1 << 16) + 64, (1 << 32) + 64, u64::MAX]),
-                },
+                6 => {
+                    // (the source may also be empty: the invalid argument must be rejected all the same)
+                    if r.chance(0.4) {
+                        w.nfull = 0;
+                        w.residue = 0;
+                    }
+                    Fault::BadBlockSize {
+                        block: *r.pick(&[0u64, 1, 16, 31, 32768, 40000, 65535, 65536, (1 << 16) + 64, (1 << 32) + 64, u64::MAX]),
+                    }
+                }
                 0 | 3 => gen_out_of_range(&mut r, &w, k),
                 1 | 4 => Fault::Oversize {
                     k,
@@ -788,7 +821,7 @@ pub fn fresh_small(r: &mut Rng) -> Workload {
         _ => 3,
     };
     let residue = *r.pick(&[0usize, 0, 1, 17, 31, block - 1]);
-    let sig_kinds: Vec<u8> = (0..channels).map(|_| r.below(12) as u8).collect();
+    let sig_kinds: Vec<u8> = (0..channels).map(|_| r.below(14) as u8).collect();
     let mut w = Workload {
         channels,
         bits,
@@ -863,7 +896,7 @@ fn neighbour_one(w0: &Workload, r: &mut Rng) -> (Workload, String) {
             w.channels = *r.pick(&[1usize, 2, 2, 3, 5, 8]);
             let seed = r.next_u64();
             let mut rr = Rng::new(seed);
-            w.sig_kinds = (0..w.channels).map(|i| w0.sig_kinds.get(i).copied().unwrap_or_else(|| rr.below(12) as u8)).collect();
+            w.sig_kinds = (0..w.channels).map(|i| w0.sig_kinds.get(i).copied().unwrap_or_else(|| rr.below(14) as u8)).collect();
             if w.channels == old {
                 "same"
             } else if w.channels < old {
